@@ -162,7 +162,7 @@ impl Prop for C05 {
             _ => rng.range(2, 4),
         };
         // swarm: a random subset of fault kinds is enabled for this run
-        let enabled = if rng.chance(1, 3) { 0x3fff } else { (rng.u32() & 0x3fff) | (1 << rng.below(14)) };
+        let enabled = if rng.chance(1, 3) { 0x1ffff } else { (rng.u32() & 0x1ffff) | (1 << rng.below(17)) };
         let mut cur = picked.bytes.clone();
         let mut fs = Vec::new();
         for _ in 0..n_faults {
